@@ -194,6 +194,7 @@ where
     let next = std::sync::atomic::AtomicU64::new(0);
     let results: std::sync::Mutex<Vec<(u64, LocalCounts)>> = std::sync::Mutex::new(Vec::new());
     let errs: std::sync::Mutex<Vec<String>> = std::sync::Mutex::new(Vec::new());
+    let subject_panics: std::sync::Mutex<Vec<(u64, String)>> = std::sync::Mutex::new(Vec::new());
     std::thread::scope(|s| {
         for _ in 0..ctx.threads {
             s.spawn(|| loop {
@@ -208,7 +209,13 @@ where
                     f(i, lo, hi, &mut lc);
                 }));
                 if let Err(e) = r {
-                    errs.lock().unwrap().push(format!("shard {} panicked: {}", i, panic_msg(&e)));
+                    if last_panic_in_harness() {
+                        errs.lock().unwrap().push(format!("shard {} panicked in the harness at {}: {}", i, last_panic_location(), panic_msg(&e)));
+                    } else {
+                        // the subject (or a dependency) panicked in a place where the check had no finer-grained
+                        // handler: a violation of the property under check, with a coarse replay hint
+                        subject_panics.lock().unwrap().push((i, format!("the real code panicked at {}: {}", last_panic_location(), panic_msg(&e))));
+                    }
                 }
                 results.lock().unwrap().push((i, lc));
             });
@@ -233,6 +240,12 @@ where
     for e in errs.into_inner().unwrap() {
         rep.machinery(e);
     }
+    let mut sp = subject_panics.into_inner().unwrap();
+    sp.sort();
+    for (i, d) in sp {
+        let id: &'static str = Box::leak(ctx.id.clone().into_boxed_str());
+        rep.violation(Violation { prop: id, class: "panic".to_string(), detail: format!("{} (in part {} of {} of a sweep; the sweep is described in the evidence file)", d, i + 1, shards), machine: "none", config: json!({}), ops: vec![format!("# no operation list was recorded for this case; rerun ./check {} {}", ctx.id, ctx.tier.name())] });
+    }
 }
 
 pub fn panic_msg(e: &Box<dyn std::any::Any + Send>) -> String {
@@ -249,12 +262,32 @@ pub fn panic_msg(e: &Box<dyn std::any::Any + Send>) -> String {
 /// subject on purpose and report them themselves).
 pub static LAST_PANIC: std::sync::Mutex<String> = std::sync::Mutex::new(String::new());
 
+thread_local! {
+    /// file:line of the last panic raised on this thread (set by the panic hook)
+    pub static PANIC_LOCATION: std::cell::RefCell<String> = std::cell::RefCell::new(String::new());
+}
+
 pub fn quiet_panics() {
     std::panic::set_hook(Box::new(|info| {
+        let loc = info.location().map(|l| format!("{}:{}", l.file(), l.line())).unwrap_or_default();
+        PANIC_LOCATION.with(|p| *p.borrow_mut() = loc);
         if let Ok(mut g) = LAST_PANIC.try_lock() {
             *g = format!("{}", info);
         }
     }));
+}
+
+/// did the last panic on this thread come from the harness's own sources (as opposed to the subject, its
+/// dependencies or the standard library called from them)?
+pub fn last_panic_in_harness() -> bool {
+    PANIC_LOCATION.with(|p| {
+        let l = p.borrow();
+        l.starts_with("src/") && !l.contains("/repo/")
+    })
+}
+
+pub fn last_panic_location() -> String {
+    PANIC_LOCATION.with(|p| p.borrow().clone())
 }
 
 // ---------------------------------------------------------------- floats
